@@ -276,6 +276,10 @@ func HarnessFree() {
 	p := (*common.Page)(unsafe.Pointer(&buf[0]))
 	p.SetId(id)
 	p.SetOverflow(ov)
+	// the freed page may be of any type (branch, leaf, the old freelist page, ...) with any count: the
+	// specification does not depend on them
+	p.SetFlags(zz.U16("flags"))
+	p.SetCount(zz.U16("count"))
 	before := zzCopyIDs(s.F)
 	// expected outcome
 	clash := id <= 1
